@@ -85,7 +85,7 @@ def encoded_sizes(sc):
     out = []
     for r in sc.records:
         try:
-            b, _ = refavro.encode(sc.node, strip_hints(r))
+            b, _ = refavro.encode(sc.node, strip_hints(r, sc.node))
             out.append(len(b))
         except Exception:
             out.append(8)
@@ -109,13 +109,33 @@ def draw_sync_interval(ch, sizes):
     return ch.pick([2, 7, 16, 64])
 
 
-def strip_hints(d):
-    if isinstance(d, tuple) and len(d) == 2 and isinstance(d[0], str):
-        return strip_hints(d[1])
-    if isinstance(d, dict):
-        return {k: strip_hints(v) for k, v in d.items() if k != "-type"}
-    if isinstance(d, (list, tuple)):
-        return [strip_hints(x) for x in d]
+def strip_hints(d, node=None):
+    """Schema-directed removal of union hints ((name, value) tuples and '-type' keys);
+    sequences become lists.  With node=None nothing is known about hints and the datum is
+    returned unchanged."""
+    if node is None:
+        return d
+    n = refavro.deref(node)
+    k = n.k
+    if k == "union":
+        if isinstance(d, tuple) and len(d) == 2 and isinstance(d[0], str):
+            for b in n.branches:
+                if refavro.branch_name(b) == d[0]:
+                    return strip_hints(d[1], b)
+        for b in n.branches:
+            if refavro.conforms(b, d):
+                return strip_hints(d, b)
+        return d
+    if k == "record" and isinstance(d, dict):
+        out = {kk: v for kk, v in d.items() if kk != "-type"}
+        for f in n.fields:
+            if f.name in out:
+                out[f.name] = strip_hints(out[f.name], f.type)
+        return out
+    if k == "array" and isinstance(d, (list, tuple)):
+        return [strip_hints(x, n.items) for x in d]
+    if k == "map" and isinstance(d, dict):
+        return {kk: strip_hints(v, n.values) for kk, v in d.items()}
     return d
 
 
